@@ -32,7 +32,11 @@ def gen_case(rng, variant):
         offers = [(n, rng.randrange(2)) for n in order[:L]]
     else:
         offers = [(rng.randrange(npool), rng.randrange(2)) for _ in range(L)]
-    return {"variant": variant, "k": k, "d": d, "offers": offers}
+    case = {"variant": variant, "k": k, "d": d, "offers": offers}
+    if variant != "s" and rng.random() < 0.3:
+        # the same candidate re-offered at a freshly drawn priority (new_build_candidates draws tau_rand per offer)
+        case["redraw"] = [float(np.float32(rng.choice([0.25, 0.5, 0.75, 1.5]) * rng.random())) for _ in offers]
+    return case
 
 
 def impl_run(case):
@@ -42,8 +46,8 @@ def impl_run(case):
     ix = np.full(k, -1, dtype=np.int32)
     fl = np.zeros(k, dtype=np.uint8)
     trace = []
-    for (n, f) in case["offers"]:
-        p = np.float32(case["d"][n])
+    for t_, (n, f) in enumerate(case["offers"]):
+        p = np.float32(case["redraw"][t_] if "redraw" in case else case["d"][n])
         if v == "f":
             acc = utils.checked_flagged_heap_push(pr, ix, fl, p, np.int32(n), np.uint8(f))
         elif v == "c":
@@ -63,9 +67,9 @@ def fmt(acc, pr, ix, fl):
 
 def model_lines(case):
     lines = ["hnew %d" % case["k"]]
-    for (n, f) in case["offers"]:
+    for t_, (n, f) in enumerate(case["offers"]):
         fbit = f if case["variant"] == "f" else 0
-        lines.append("hpush %s %d %d %d" % (case["variant"], f32bits(case["d"][n]), n, fbit))
+        lines.append("hpush %s %d %d %d" % (case["variant"], f32bits(case["redraw"][t_] if "redraw" in case else case["d"][n]), n, fbit))
     lines.append("hsort")
     return lines
 
@@ -74,6 +78,22 @@ def predicate(case, final, srt):
     """The property, evaluated on the REAL kernel output. Returns None or a description."""
     pr, ix, fl = final
     k = case["k"]; d = case["d"]; v = case["variant"]
+    if "redraw" in case:
+        # priorities are per offer: the clauses that remain are "never the same candidate twice", pairing with an offered
+        # priority, max-heap order and the sort
+        H = [int(x) for x in ix if x >= 0]
+        if len(set(H)) != len(H):
+            return "candidate held twice"
+        offered_pairs = {(n, float(np.float32(p))) for (n, f), p in zip(case["offers"], case["redraw"])}
+        for j in range(k):
+            if ix[j] >= 0 and (int(ix[j]), float(pr[j])) not in offered_pairs:
+                return "candidate %d paired with a distance it was never offered with" % int(ix[j])
+            if j > 0 and pr[j] > pr[(j - 1) // 2]:
+                return "max-heap order broken at slot %d" % j
+        spr, six = srt
+        if any(spr[j] > spr[j + 1] for j in range(k - 1)):
+            return "sorted row not ascending"
+        return None
     offered = {}
     for (n, f) in case["offers"]:
         offered.setdefault(n, set()).add(f)
@@ -125,9 +145,9 @@ def check_case(res, case):
                 far += 1
     evict_real = n_acc > case["k"]
     res.count("accept", n_acc); res.count("reject_dup", dup); res.count("reject_far", far)
-    res.count("variant_" + case["variant"])
+    res.count("variant_" + case["variant"]); res.count("redraw" if "redraw" in case else "fixed-distance")
     nontrivial = evict_real and far >= 1 and (dup >= 1 or case["variant"] == "s")
-    res.case((case["variant"], case["k"], case["d"], case["offers"]), nontrivial,
+    res.case((case["variant"], case["k"], case["d"], case["offers"], case.get("redraw")), nontrivial,
              sample={"variant": case["variant"], "k": case["k"], "d": case["d"][:8], "offers": case["offers"][:12]})
     ok = True
     for i, (a, b) in enumerate(zip(impl[:-1], model[:-1])):
